@@ -10,6 +10,49 @@ _NOTE = ("Trusted base: the Python grammar/ast module; the canonicaliser (framel
          "numerical behaviour. assert is FRAME's rejection mechanism (python -O voids reject clauses).")
 
 CLAIMED = {
+    "C08": (
+        "Static decision of the structure of the formula the shape search generates: the interval-variable clauses of a box are "
+        "closed under x<->y and (per cell) low<->high, with the cell => bounds anchor; exactly one attachment direction; the "
+        "adjacency clauses of the four directions are images of each other under x<->y and under the reflection of either axis "
+        "(axis-aware order reversal), with the west clause anchored to its definition; die-border exclusions compare with grid "
+        "coordinates (never a literal or an int()-truncated size); enforce_bb for every box with box 0 as trunk, per-cell "
+        "at-most-one, cell <=> some box; cell tuples and the bounding-box update position by position. Not decided: the model "
+        "set of the CNF; optimality w.r.t. the cost bound.",
+        _NOTE, "involution closure with role-discovered variables (CLOSED) + KIND rule on comparisons + LOOP-COVER", "DESIGN.md 6/C08"),
+    "C09": (
+        "Static decision of the legaliser's equation structure: role->slot->Cardinal->builder tables agree (CCP on add_rect); "
+        "the four attachment builders are images under x<->y and axis reflection, north anchored to its definition; die-bound "
+        "equations closed under x<->y with the low/high anchor, variable bounds from the die, one ratio equation, thin() "
+        "symmetric; an Area equation per module; per side list sort + consecutive-pair separation on the side's own axis; "
+        "smooth no-overlap over all rectangle pairs of all module pairs with mirrored x/w and y/h terms; fixing tables free of "
+        "int/float representation tests, branch offsets trunk-relative exactly for movable hard modules; the comparison "
+        "dispatch of add_equation / apply_equation / is_equation_met / surplus agrees. Not decided: smoothing tolerance, GEKKO.",
+        _NOTE, "MIRROR/CLOSED + CCP tables (partial evaluation) + sibling agreement + REPR-INDEP", "DESIGN.md 6/C09"),
+    "C10": (
+        "Static decision of the clauses visible in the optimiser's code: rectangle geometry is written only for hard, movable "
+        "modules (recenter + flip under dominating guards), never shapes, the flip is the reflection about the module centre "
+        "on both axes; the model declares ratio variables in [0,1], a capacity equation per cell over all modules, centre "
+        "variables bounded by the die (x/y alike), fixed modules as constants, an area equation per module; the returned "
+        "allocation is rebuilt on the input cells with ratios kept above 1 - threshold; refine only under must_be_refined. "
+        "Not applicable: what the non-linear solver returns.",
+        _NOTE, "dominating-guard facts + canonical-form obligation checks + effect analysis", "DESIGN.md 6/C10"),
+    "C15": (
+        "Static decision of the decomposition's structure: the N/S and W/E histogram loops are images under transposition; the "
+        "four branch-extraction blocks map onto each other under transposition and index reflection; trunk candidates = "
+        "matrix candidates intersected with the transpose's candidates mapped back, filtered by the four empty quadrants; "
+        "INDEX-OF typing (row index only into rows / y coordinates / E-W histograms ...) in StropInstance, _empty_corners and "
+        "strop_decomposition; rectangle geometry from coordinate[index] / coordinate[index+1]; validity = all set cells "
+        "accounted for; assert is_strop dominates use. Not decided: exhaustiveness of trunk candidates; point-in-polygon.",
+        _NOTE, "MIRROR with role-discovered variables + INDEX-OF kind typing + obligation checks", "DESIGN.md 6/C15"),
+    "C20": (
+        "Static who-writes inventory of all process-wide state in frame/ and tools/ (global re-binding, module-level "
+        "containers, class attributes written through the class, class-level mutable attributes) equals the confirmed table "
+        "with the confirmed writers; every Rectangle.set_epsilon call in library code is dominated by 'not epsilon_defined()' "
+        "with a relative tolerance <= 1e-9 and undefine_epsilon is never called; mutable default arguments are neither "
+        "mutated nor stored (effect analysis); the legaliser re-defines its slack before any equation on every Model "
+        "construction; the debug mask is read only by debug(). Not decided: whether a 1000x tolerance change flips a "
+        "particular comparison.",
+        _NOTE, "who-writes inventory + dominating-guard facts + effect/escape analysis + must-precede", "DESIGN.md 6/C20"),
     "C07": (
         "Static decision of the encoder's structure: pseudoboolencoding posts a clause / asserts the diagram root / raises on "
         "every path and the only silent path (tautology shortcut of isclause, found by path tabulation) is sound for both '>=' "
@@ -128,7 +171,4 @@ CLAIMED = {
 _PENDING = "rule set under construction in this round (see DESIGN.md section 6 for the planned structural clauses)"
 
 NOT_APPLICABLE = {
-    
-    "C08": _PENDING, "C09": _PENDING, "C10": _PENDING, 
-    "C15": _PENDING, "C20": _PENDING,
 }
